@@ -8,6 +8,7 @@ import GridVerse.Model.Env
 import GridVerse.Model.Repr
 import GridVerse.Model.Rays
 import GridVerse.Model.Config
+import GridVerse.Model.World
 namespace GV.Codec
 
 abbrev P := StateT (List String) Option
